@@ -199,6 +199,19 @@ pub fn restart(t: &mut Toks) -> String {
                     let _ = tokio::time::timeout(Duration::from_secs(10), wait_for_all_pending_handles()).await;
                     copy_dir(&dir, &ndir);
                 }
+                "T" => {
+                    // a local transaction commits and the node shuts down at once: its
+                    // broadcast_changes task (which feeds the subscriptions) was only spawned
+                    let _ = api_v1_transactions(axum::Extension(agent.clone()), axum::extract::Query(TimeoutParams { timeout: None }),
+                        axum::extract::Json(vec![Statement::Simple(format!("INSERT INTO tests (id, text) VALUES ({next}, 'r{next}')"))])).await;
+                    next += 1;
+                    let _ = live.tw_tx.send(()).await;
+                    let _ = tokio::time::timeout(Duration::from_secs(5), &mut live.worker).await;
+                    agent.subs_manager().drop_handles().await;
+                    cur = None;
+                    let _ = tokio::time::timeout(Duration::from_secs(10), wait_for_all_pending_handles()).await;
+                    copy_dir(&dir, &ndir);
+                }
                 "G" | "C" => {
                     if stop == "C" {
                         if let Some(h) = &cur {
